@@ -246,20 +246,23 @@ type GoCheck struct {
 
 // Interp runs scenarios on one implementation.
 type Interp struct {
-	Impl    *Impl
-	TmpDir  string
-	Segs    []segment.Segment
-	Bytes   [][]byte // persisted bytes of loaded/merged segments (nil for built)
-	Nums    map[int][][]uint64 // DocumentNumbers() of merged slots
-	Outs    []W                // per-op outputs of the last scenario
-	pls     map[int]segment.PostingsList
-	its     map[int]segment.PostingsIterator
-	rds     map[int]segment.DocumentValueReader
-	dicts   map[string]segment.Dictionary
-	files   []*os.File
-	Failed  []GoCheck
-	nfile   int
-	Touched map[string]int // coverage counters
+	Impl      *Impl
+	TmpDir    string
+	Segs      []segment.Segment
+	Bytes     [][]byte           // persisted bytes of loaded/merged segments (nil for built)
+	Nums      map[int][][]uint64 // DocumentNumbers() of merged slots
+	Outs      []W                // per-op outputs of the last scenario
+	persisted map[segment.Segment]bool
+	npersist  int
+	pls       map[int]segment.PostingsList
+	held      map[int]heldList // what the list in each slot answered when it was made
+	its       map[int]segment.PostingsIterator
+	rds       map[int]segment.DocumentValueReader
+	dicts     map[string]segment.Dictionary
+	files     []*os.File
+	Failed    []GoCheck
+	nfile     int
+	Touched   map[string]int // coverage counters
 }
 
 func NewInterp(impl *Impl, tmp string) *Interp {
@@ -292,10 +295,30 @@ func bitmapOf(xs []uint64) *roaring.Bitmap {
 
 // Persist writes a segment with Segment.WriteTo and checks the returned count.
 func (in *Interp) Persist(seg segment.Segment) ([]byte, error) {
+	// every other segment meets a destination that fails inside the data section on its very
+	// first persist; the retry below must not be affected by the failed attempt
+	if in.persisted == nil {
+		in.persisted = map[segment.Segment]bool{}
+	}
+	if !in.persisted[seg] {
+		in.persisted[seg] = true
+		in.npersist++
+		if in.npersist%2 == 0 {
+			seg.WriteTo(&failAt{k: []int{0, 1, 9}[in.npersist/2%3]}, nil)
+			in.Touched["failed_first_persist"]++
+		}
+	}
 	var buf bytes.Buffer
 	n, err := seg.WriteTo(&buf, nil)
 	if err != nil {
 		return nil, err
+	}
+	// persisting again gives the same bytes
+	var again bytes.Buffer
+	if _, err := seg.WriteTo(&again, nil); err != nil || !bytes.Equal(again.Bytes(), buf.Bytes()) {
+		in.fail("C04", "persisting the same segment twice gives different bytes (err=%v, %d and %d bytes, first difference at %d)", err, buf.Len(), again.Len(), firstDiffBytes(buf.Bytes(), again.Bytes()))
+		in.fail("C11", "persisting the same segment twice gives different bytes (err=%v, %d and %d bytes, first difference at %d)", err, buf.Len(), again.Len(), firstDiffBytes(buf.Bytes(), again.Bytes()))
+		in.fail("C15", "persisting the same segment twice gives different bytes (err=%v)", err)
 	}
 	if n != int64(buf.Len()) {
 		in.fail("C04", "WriteTo returned %d but wrote %d bytes", n, buf.Len())
@@ -666,7 +689,56 @@ func postingOut(w *W, p segment.Posting) {
 	}
 }
 
+// heldList remembers the documents of a postings list that the scenario still
+// holds: handing its iterator (or another list) back as prealloc for a later
+// lookup must not change what this list answers.
+type heldList struct {
+	pl    segment.PostingsList
+	count uint64
+	docs  []uint64
+	what  string
+}
+
+func listDocs(pl segment.PostingsList) (docs []uint64, ok bool) {
+	defer func() {
+		if r := recover(); r != nil {
+			ok = false
+		}
+	}()
+	it, err := pl.Iterator(false, false, false, nil)
+	if err != nil {
+		return nil, false
+	}
+	for p, err := it.Next(); p != nil || err != nil; p, err = it.Next() {
+		if err != nil {
+			return nil, false
+		}
+		docs = append(docs, p.Number())
+	}
+	return docs, true
+}
+
+func (in *Interp) checkHeld() {
+	for slot, h := range in.held {
+		if in.pls[slot] != h.pl {
+			delete(in.held, slot)
+			continue
+		}
+		docs, ok := listDocs(h.pl)
+		same := ok && h.pl.Count() == h.count && len(docs) == len(h.docs)
+		for i := 0; same && i < len(docs); i++ {
+			same = docs[i] == h.docs[i]
+		}
+		if !same {
+			in.fail("", "the postings list still held in slot %d (%s) answered Count %d and %d documents when it was made and now Count %d and %d documents (ok=%v): a later lookup that reused another object changed it",
+				slot, h.what, h.count, len(h.docs), h.pl.Count(), len(docs), ok)
+			delete(in.held, slot)
+		}
+	}
+}
+
 func (in *Interp) runIter(o *Op) (out W) {
+	defer in.checkHeld()
 	d, err := in.dict(o.Slot, o.F)
 	if err != nil {
 		in.fail("", "dictionary error: %v", err)
@@ -690,6 +762,14 @@ func (in *Interp) runIter(o *Op) (out W) {
 	}
 	if o.PLSlot > 0 {
 		in.pls[o.PLSlot] = pl
+		if in.held == nil {
+			in.held = map[int]heldList{}
+		}
+		if docs, ok := listDocs(pl); ok {
+			in.held[o.PLSlot] = heldList{pl, pl.Count(), docs, fmt.Sprintf("%s:%q of segment slot %d", o.F, o.T, o.Slot)}
+		} else {
+			delete(in.held, o.PLSlot)
+		}
 	}
 	var preIt segment.PostingsIterator
 	if o.ItSlot > 0 {
